@@ -16,14 +16,25 @@ package main
 //              kind n0 = the scripted wrapper alone, n1 = FiniteReplayer(cap), n2 = ValidReplayer, n3 = ValidReplayer
 //              (TTL 1000 s) whose clock jumps +600 s right after the m-th accepted Put and +500 s right after the
 //              (m+k)-th, cap = 100 m + k; gc = n1: the application's own GC() call follows the second jump at once
-//              (made from inside Put, i.e. on Joe's goroutine: the replayer is never touched concurrently)
+//              (made from inside Put, i.e. on Joe's goroutine: the replayer is never touched concurrently);
+//              kind n4 = NO replayer at all: &sse.Joe{} with Replayer == nil (joe.go then runs its own noopReplayer;
+//              the trace has no Put / Replay records, the scripts are ignored)
+//   verdicts of the scripts (wscript, putscript, replayscript): < 100 ok, n98 panic (replayer only), >= 100 an error
+//              whose CHARACTER is (v-100)%200/10 (see jErr): plain, Temporary(), Timeout(), wrapping
+//              os.ErrDeadlineExceeded / context.DeadlineExceeded / context.Canceled of some other context, a *net.OpError,
+//              and - calls that belong to a subscriber - the subscriber's own context cancelled inside the call and its
+//              ctx.Err() returned as it is / wrapped with %w / wrapped in the harness's type.  putscript only: v in
+//              [300,400) = the error of character (v-300)/10 returned TOGETHER with the message (return m, err)
 //   sub      = ( topics idopt wscript selfcancel start cancelopt )  cancelopt = () never | ( cond )
 //              (( () ) = cancelled before Subscribe is called)
-//   pub      = ( start msgs )  a publisher thread;  msg = ( topics idopt pre [shape] )
-//              the token p of a message = its index in the concatenation of all threads' msgs.
+//   pub      = ( start msgs )  a publisher thread;  msg = ( topics idopt pre [shape [same]] )
+//              the token p of a message = its index in the concatenation of all threads' msgs (one token per Publish call).
 //              shape n0: the data field carries the token; n1: a message without data, event type and retry
-//              (with idopt = () it is &sse.Message{}).  A message without data is recognised by the pointer the
-//              publisher passed / the replayer's Put returned (fallback: the ID Put returned for it).
+//              (with idopt = () it is &sse.Message{}).  same = k+1: this call publishes the SAME *sse.Message object as
+//              the k-th call of its thread (a prebuilt heartbeat; idopt and shape are those of that object).
+//              Which Publish call a message pointer stands for: at pub.enter the call the publisher is making, from
+//              loop.msg on the call the loop accepted with that pointer, for a copy the call whose Put returned it;
+//              only a pointer never seen is read by the token in its data (fallback: the ID Put returned for it).
 //   shut     = ( start cancelopt )
 //
 // Nothing in a scenario is a sleep: controllers wait for observed events.  A wait also ends
@@ -35,6 +46,8 @@ import (
 	"encoding/binary"
 	"errors"
 	"fmt"
+	"net"
+	"os"
 	"runtime"
 	"sync"
 	"sync/atomic"
@@ -75,6 +88,7 @@ type jMsgSpec struct {
 	idopt  val.V
 	pre    jCond
 	shape  uint64
+	same   uint64 // k+1: the object of the k-th message of the thread is published again
 }
 type jPubSpec struct {
 	start jCond
@@ -146,8 +160,11 @@ func (s *jScenario) enc() val.V {
 		msgs := []val.V{}
 		for _, m := range t.msgs {
 			mv := []val.V{jNums(m.topics), jIDOpt(m.idopt), m.pre.enc()}
-			if m.shape != 0 {
+			if m.shape != 0 || m.same != 0 {
 				mv = append(mv, val.N(m.shape))
+			}
+			if m.same != 0 {
+				mv = append(mv, val.N(m.same))
 			}
 			msgs = append(msgs, val.List(mv))
 		}
@@ -191,7 +208,7 @@ func jDecode(v val.V) *jScenario {
 	for _, t := range v.At(3).Items() {
 		pt := jPubSpec{start: jDecCond(t.At(0))}
 		for _, m := range t.At(1).Items() {
-			pt.msgs = append(pt.msgs, jMsgSpec{topics: scriptOf(m.At(0)), idopt: m.At(1), pre: jDecCond(m.At(2)), shape: m.At(3).Num()})
+			pt.msgs = append(pt.msgs, jMsgSpec{topics: scriptOf(m.At(0)), idopt: m.At(1), pre: jDecCond(m.At(2)), shape: m.At(3).Num(), same: m.At(4).Num()})
 		}
 		s.pubs = append(s.pubs, pt)
 	}
@@ -222,13 +239,90 @@ func jTopicNames(ns []uint64) []string {
 	return out
 }
 
-// joeErrCode projects every error the Joe families see to the code of RunJoe.v.
+// jErr is a scripted error value with a character.  idx is the verdict number of the script; its character
+// jErrKind(idx) decides what the value looks like to code that inspects errors (errors.Is / errors.As / the
+// net.Error methods).  Joe owes every one of them the same treatment: an error is an error.
+//
+//	0 plain (codeErr)                      1 Temporary() is true             2 Timeout() is true
+//	3 wraps os.ErrDeadlineExceeded         4 wraps context.DeadlineExceeded  5 wraps context.Canceled
+//	  (its Timeout() is true)                (4, 5: of no context of the scenario - the sentinels themselves)
+//	6 a *net.OpError around a Timeout() error
+//	7 8 9 (calls that belong to a subscriber) the subscriber's own context is cancelled inside the call, and the
+//	  error is ctx.Err() itself / fmt.Errorf("...: %w", ctx.Err()) / a jErr wrapping ctx.Err()
+type jErr struct {
+	idx   uint64
+	inner error
+}
+
+const (
+	jErrKinds    = 10 // characters a subscriber's writer (and a Replay for that subscriber) can answer
+	jErrKindsAny = 7  // characters that need no subscriber
+)
+
+func jErrKind(v uint64) uint64 {
+	if v < 100 {
+		return 0
+	}
+	return (v - 100) % 200 / 10
+}
+
+func (e jErr) Error() string   { return fmt.Sprintf("scripted error %d", e.idx) }
+func (e jErr) Temporary() bool { return jErrKind(e.idx) == 1 }
+func (e jErr) Timeout() bool   { k := jErrKind(e.idx); return k == 2 || k == 6 }
+func (e jErr) Unwrap() error {
+	switch jErrKind(e.idx) {
+	case 3:
+		return os.ErrDeadlineExceeded
+	case 4:
+		return context.DeadlineExceeded
+	case 5:
+		return context.Canceled
+	}
+	return e.inner
+}
+
+// jOwnCtxKind: the character makes the call cancel the subscriber's own context before it answers.
+func jOwnCtxKind(v uint64) bool { return v >= 100 && jErrKind(v) >= 7 }
+
+// jErrCodeOf is the code the error built for verdict v projects to (joeErrCode): the verdict itself - the value is
+// recognised by identity - except where the value returned IS a context error (characters 7, 8 with a subscriber).
+func jErrCodeOf(v uint64, own bool) uint64 {
+	if k := jErrKind(v); v >= 100 && own && (k == 7 || k == 8) {
+		return 2
+	}
+	return v
+}
+
+// jErrOf builds the error for verdict v >= 100.  ctx is the context of the subscriber the call belongs to (nil:
+// none, characters 7-9 are then plain); for the characters 7-9 the caller has cancelled it already.
+func jErrOf(v uint64, ctx context.Context) error {
+	switch k := jErrKind(v); {
+	case k == 0 || k >= 7 && ctx == nil:
+		return codeErr{v}
+	case k == 6:
+		return &net.OpError{Op: "write", Net: "tcp", Err: jErr{idx: v}}
+	case k == 7:
+		return ctx.Err()
+	case k == 8:
+		return fmt.Errorf("write event: %w", ctx.Err())
+	case k == 9:
+		return jErr{idx: v, inner: ctx.Err()}
+	default:
+		return jErr{idx: v}
+	}
+}
+
+// joeErrCode projects every error the Joe families see to the code of RunJoe.v.  The identity of a scripted value
+// comes first: it may wrap any of the sentinels below.
 func joeErrCode(err error) uint64 {
 	if err == nil {
 		return 0
 	}
 	var ce codeErr
+	var je jErr
 	switch {
+	case errors.As(err, &je):
+		return je.idx
 	case errors.As(err, &ce):
 		return ce.code
 	case errors.Is(err, sse.ErrProviderClosed):
@@ -296,8 +390,9 @@ type jx struct {
 	subIdx, pubIdx, shutIdx map[any]uint64
 	tokThread               []uint64
 	tokMsg                  []*jMsgSpec
-	ptrTok                  map[*sse.Message]uint64 // messages that carry no data token: the pointers that stand for them
-	idTok                   map[string]uint64       // ... and the IDs Put returned for them
+	callTok                 map[*sse.Message]uint64 // the Publish call a publisher is making with this object (read at pub.enter)
+	ptrTok                  map[*sse.Message]uint64 // the call a pointer stands for once the loop accepted it / Put returned it
+	idTok                   map[string]uint64       // messages without a data token: the IDs Put returned for them
 	writers                 []*jwriter
 	parksBy                 map[uint64][]*jParkSpec
 
@@ -358,17 +453,20 @@ func (x *jx) look(m map[any]uint64, k any) uint64 {
 	return jUnknown
 }
 
-// tokOfLocked identifies a message: by the token its data carries (read-only: safe from any goroutine),
-// a message without data by its pointer, else by the ID the replayer gave it.  Caller holds x.mu.
+// tokOfLocked identifies the Publish call a message pointer stands for: the call the loop accepted with this
+// pointer (recorded at loop.msg) or whose Put returned it (one object may be published many times, and a Publish
+// call returns while its fan-out is still running, so neither the data nor the call site can tell); a pointer never
+// seen by the token its data carries (read-only: safe from any goroutine), else by the ID the replayer gave it.
+// Caller holds x.mu.
 func (x *jx) tokOfLocked(m *sse.Message) uint64 {
 	if m == nil {
 		return jNilTok
 	}
-	if c, _ := m.VerifChunks(); len(c) > 0 {
-		return msgTok(m)
-	}
 	if p, ok := x.ptrTok[m]; ok {
 		return p
+	}
+	if c, _ := m.VerifChunks(); len(c) > 0 {
+		return msgTok(m)
 	}
 	if m.ID.IsSet() {
 		if p, ok := x.idTok[m.ID.String()]; ok {
@@ -384,21 +482,29 @@ func (x *jx) tokOf(m *sse.Message) uint64 {
 	return x.tokOfLocked(m)
 }
 
-// noteMsg records that m stands for message p (needed for messages without a data token only).
-func (x *jx) noteMsg(m *sse.Message, p uint64) {
-	if m == nil {
+// noteMsgLocked records that from now on the pointer m stands for Publish call p.  Caller holds x.mu.
+func (x *jx) noteMsgLocked(m *sse.Message, p uint64) {
+	if m == nil || p >= uint64(len(x.tokMsg)) {
 		return
 	}
-	if c, _ := m.VerifChunks(); len(c) > 0 {
-		return
-	}
-	x.mu.Lock()
 	x.ptrTok[m] = p
-	if m.ID.IsSet() {
+	if c, _ := m.VerifChunks(); len(c) == 0 && m.ID.IsSet() {
 		if _, dup := x.idTok[m.ID.String()]; !dup {
 			x.idTok[m.ID.String()] = p
 		}
 	}
+}
+
+func (x *jx) noteMsg(m *sse.Message, p uint64) {
+	x.mu.Lock()
+	x.noteMsgLocked(m, p)
+	x.mu.Unlock()
+}
+
+// noteCall: a publisher is about to make Publish call p with the object m.
+func (x *jx) noteCall(m *sse.Message, p uint64) {
+	x.mu.Lock()
+	x.callTok[m] = p
 	x.mu.Unlock()
 }
 
@@ -449,13 +555,19 @@ func (x *jx) hook(point string, a, b any) {
 		}
 	case code == 11:
 		m, _ := b.(*sse.Message)
-		id = x.tokOfLocked(m)
-		x.pubIdx[a] = id
-		topics, thread := val.L(), uint64(jUnknown)
-		if id < uint64(len(x.tokMsg)) {
-			topics, thread = jNums(x.tokMsg[id].topics), x.tokThread[id]
+		if p, ok := x.callTok[m]; ok && m != nil {
+			id = p
+		} else {
+			id = x.tokOfLocked(m)
 		}
-		ev = val.L(val.N(11), val.N(id), topics, jMsgID(m), val.N(thread))
+		x.pubIdx[a] = id
+		// what the publisher published: the topics and the ID it gave the message (the scenario's; a call the
+		// harness did not make: what the message carries)
+		topics, idopt, thread := val.L(), jMsgID(m), uint64(jUnknown)
+		if id < uint64(len(x.tokMsg)) {
+			topics, idopt, thread = jNums(x.tokMsg[id].topics), jIDOpt(x.tokMsg[id].idopt), x.tokThread[id]
+		}
+		ev = val.L(val.N(11), val.N(id), topics, idopt, val.N(thread))
 	case code <= 14:
 		id = x.look(x.pubIdx, a)
 		ev = val.L(val.N(code), val.N(id))
@@ -466,6 +578,9 @@ func (x *jx) hook(point string, a, b any) {
 		ev = val.L(val.N(code))
 	case code == 25 || code == 27:
 		id = x.look(x.pubIdx, a)
+		if m, ok := b.(*sse.Message); ok && code == 25 {
+			x.noteMsgLocked(m, id) // the loop accepted call id with this pointer
+		}
 		ev = val.L(val.N(code), val.N(id))
 	case code == 26:
 		id = x.look(x.pubIdx, a)
@@ -639,6 +754,7 @@ type jwriter struct {
 	i      uint64
 	spec   *jSubSpec
 	n      int
+	ctx    context.Context // the context of its Subscribe call
 	cancel context.CancelFunc
 }
 
@@ -654,29 +770,36 @@ func (w *jwriter) verdict() uint64 {
 	return v
 }
 
-func (w *jwriter) finish(code uint64, seq int, v uint64) error {
-	if v != 0 && w.spec.selfCancel {
+// fail ends subscriber w's context where the script says so and builds the error for verdict v (of character
+// jErrKind(v)); the code it projects to, jErrCodeOf(v, true), was logged by the caller.
+func (w *jwriter) fail(v uint64) error {
+	if w.spec.selfCancel || jOwnCtxKind(v) {
 		// as net/http does on a write error: the request context ends inside the failing call
 		w.x.rec(10, w.i)
 		w.cancel()
 	}
-	w.x.after(code, w.i, seq)
+	return jErrOf(v, w.ctx)
+}
+
+func (w *jwriter) finish(code uint64, seq int, v uint64) error {
+	var err error
 	if v != 0 {
-		return codeErr{v}
+		err = w.fail(v)
 	}
-	return nil
+	w.x.after(code, w.i, seq)
+	return err
 }
 
 func (w *jwriter) Send(m *sse.Message) error {
 	tok := w.x.tokOf(m)
 	v := w.verdict()
-	seq := w.x.rec(38, w.i, val.N(tok), jMsgID(m), val.N(v))
+	seq := w.x.rec(38, w.i, val.N(tok), jMsgID(m), val.N(jErrCodeOf(v, true)))
 	return w.finish(38, seq, v)
 }
 
 func (w *jwriter) Flush() error {
 	v := w.verdict()
-	seq := w.x.rec(39, w.i, val.N(v))
+	seq := w.x.rec(39, w.i, val.N(jErrCodeOf(v, true)))
 	return w.finish(39, seq, v)
 }
 
@@ -725,8 +848,10 @@ func (r *jrep) Put(m *sse.Message, topics []string) (out *sse.Message, err error
 	switch {
 	case v == 98:
 		scriptedPanic(r.nput+len(r.x.sc.subs), "Put")
+	case v >= 300:
+		out, err = m, jErrOf(v, nil) // the "return m, err" habit: the message comes back together with the error
 	case v >= 100:
-		out, err = nil, codeErr{v}
+		out, err = nil, jErrOf(v, nil)
 	case r.inner == nil:
 		out = m
 	default:
@@ -754,7 +879,8 @@ func (r *jrep) Put(m *sse.Message, topics []string) (out *sse.Message, err error
 
 func (r *jrep) Replay(sub sse.Subscription) error {
 	i := uint64(jUnknown)
-	if w, ok := sub.Client.(*jwriter); ok && w != nil {
+	w, _ := sub.Client.(*jwriter)
+	if w != nil {
 		i = w.i
 	}
 	v := jScriptAt(r.x.sc.repScript, r.nrep)
@@ -764,8 +890,13 @@ func (r *jrep) Replay(sub sse.Subscription) error {
 	switch {
 	case v == 98:
 		scriptedPanic(r.nrep+len(r.x.sc.pubs), "Replay")
+	case v >= 100 && w != nil && jOwnCtxKind(v):
+		// the replay ends because the subscriber went away: its context is cancelled, Replay returns that error
+		r.x.rec(10, w.i)
+		w.cancel()
+		return jErrOf(v, w.ctx)
 	case v >= 100:
-		return codeErr{v}
+		return jErrOf(v, nil)
 	case r.inner == nil:
 		return nil
 	}
@@ -778,7 +909,7 @@ func joeRunScenario(v val.V, seq uint64, shm []byte) (status uint64, events []va
 	sc := jDecode(v)
 	x := &jx{sc: sc, counts: map[[2]uint64]uint64{}, shm: shm, last: time.Now(),
 		subIdx: map[any]uint64{}, pubIdx: map[any]uint64{}, shutIdx: map[any]uint64{},
-		ptrTok: map[*sse.Message]uint64{}, idTok: map[string]uint64{},
+		callTok: map[*sse.Message]uint64{}, ptrTok: map[*sse.Message]uint64{}, idTok: map[string]uint64{},
 		parksBy: map[uint64][]*jParkSpec{}}
 	x.cond = sync.NewCond(&x.mu)
 	x.wakeFn = func() {
@@ -795,6 +926,12 @@ func joeRunScenario(v val.V, seq uint64, shm []byte) (status uint64, events []va
 	}
 	for t := range sc.pubs {
 		for k := range sc.pubs[t].msgs {
+			if ms := &sc.pubs[t].msgs[k]; ms.same != 0 && ms.same <= uint64(k) {
+				// the object of an earlier call of this thread: it is what that call built
+				ms.idopt, ms.shape = sc.pubs[t].msgs[ms.same-1].idopt, sc.pubs[t].msgs[ms.same-1].shape
+			} else {
+				ms.same = 0
+			}
 			x.tokThread = append(x.tokThread, uint64(t))
 			x.tokMsg = append(x.tokMsg, &sc.pubs[t].msgs[k])
 		}
@@ -820,7 +957,11 @@ func joeRunScenario(v val.V, seq uint64, shm []byte) (status uint64, events []va
 			inner = r
 		}
 	}
-	x.joe = &sse.Joe{Replayer: &jrep{x: x, inner: inner}}
+	if sc.kind == 4 {
+		x.joe = &sse.Joe{} // no replayer configured
+	} else {
+		x.joe = &sse.Joe{Replayer: &jrep{x: x, inner: inner}}
+	}
 
 	sse.VerifSetHook(x.hook)
 	defer sse.VerifSetHook(nil)
@@ -840,7 +981,7 @@ func joeRunScenario(v val.V, seq uint64, shm []byte) (status uint64, events []va
 		w := &jwriter{x: x, i: uint64(i), spec: spec}
 		x.writers = append(x.writers, w)
 		ctx, cancel := context.WithCancel(context.Background())
-		w.cancel = cancel
+		w.ctx, w.cancel = ctx, cancel
 		go func() {
 			defer x.ctlEnd(true)
 			x.waitStages(spec.start, jHard, true)
@@ -869,12 +1010,20 @@ func joeRunScenario(v val.V, seq uint64, shm []byte) (status uint64, events []va
 		go func() {
 			defer x.ctlEnd(true)
 			x.waitStages(pt.start, jHard, true)
+			objs := make([]*sse.Message, len(pt.msgs))
 			for k := range pt.msgs {
 				ms := &pt.msgs[k]
 				p := base + uint64(k)
 				x.waitStages(ms.pre, jHard, true)
-				m := jMkMsg(ms, p)
-				x.noteMsg(m, p)
+				var m *sse.Message
+				if ms.same != 0 {
+					m = objs[ms.same-1] // a prebuilt message published once more
+				} else {
+					m = jMkMsg(ms, p)
+				}
+				objs[k] = m
+				x.noteCall(m, p)
+				x.rec(42, p, jNums(ms.topics))
 				x.callStart()
 				err := x.joe.Publish(m, jTopicNames(ms.topics))
 				x.rec(15, p, val.N(joeErrCode(err)))
